@@ -127,7 +127,7 @@ impl Monitor for C04 {
         // "tokenize yields exactly the pieces between consecutive matches": the common span sequence
         // must also be the right one (leftmost, in the match relation / ordered choice), otherwise
         // three loops that miss the same match would look consistent
-        if c.ast.is_some() && c.dialect == Dialect::XPath {
+        if c.dialect == Dialect::XPath && !c.flags.contains('q') {
             match ref_check(c, &mut Obs::scratch(), Wants { spans: true, ..Default::default() }) {
                 Outcome::Violated(f) => return Outcome::Violated(f),
                 Outcome::Held => obs.count("spans_also_checked_against_reference"),
